@@ -273,9 +273,13 @@ class Machine:
             if tv == got: return tb
         return otherwise
 
-    def do_drop(self, v):
+    def do_drop(self, v, depth=0):
         if isinstance(v, Native) and v.kind == 'MutexGuard':
             v.d['mutex'].d['locked'] = False
+        elif isinstance(v, Agg) and depth < 4:
+            # a guard inside Result / Option / a tuple is released with it
+            for f in v.fields:
+                if isinstance(f, (Agg, Native)): self.do_drop(f, depth + 1)
 
     # ---- places
     def place_ref(self, fr, p):
@@ -531,7 +535,7 @@ class Machine:
         key = self.lookup(callee)
         if key is not None: return self.call(key, args)
         # dynamic dispatch: `<dyn Trait as Trait>::method(&*boxed, ..)` -- the receiver's concrete type is known at run time
-        md = re.match(r'^<dyn (?:[\w:]+::)?(\w+)(?:<.*>)? as .*>::(\w+)$', nm)
+        md = re.match(r'^<dyn (?:[\w:]+::)?(\w+)(?:<.*>)? as .*>::(\w+)$', nm) or re.match(r'^<([A-Z]\w?) as [\w:<>, ]+>::(\w+)$', nm)      # `dyn Trait` or a bare type parameter
         if md and args:
             r0 = args[0]
             while isinstance(r0, Ref): r0 = r0.load()
@@ -540,6 +544,11 @@ class Machine:
                 tn = r0.ty.split('::')[-1]
                 hits = [n for n, b in self.bodies.items() if n.endswith('::' + md.group(2)) and re.search(r'\(_1: &(?:mut )?(?:\w+::)*' + re.escape(tn) + r'\b', b.header)]
                 if len(hits) == 1: return self.call(hits[0], args)
+                if not hits:
+                    # a method the trait provides itself (default body), not overridden for this type
+                    tr = re.sub(r'^<.* as (?:[\w:]+::)?(\w+)(?:<.*>)?>::\w+$', r'\1', nm)
+                    dh = [n for n in self.bodies if n == '%s::%s' % (tr, md.group(2)) or n.endswith('::%s::%s' % (tr, md.group(2)))]
+                    if len(dh) == 1: return self.call(dh[0], args)
         # a tuple-variant constructor used as a function (`.map(Some)`, `map_or_else(.., Ok)`, `.map(Value::Int)`)
         segs = strip_generics(nm).split('::')
         if len(segs) >= 2 and segs[-2] in ENUMS and segs[-1] in ENUMS[segs[-2]]:
